@@ -281,6 +281,135 @@ func storeSites(pkgs ...*packages.Package) []site {
 			}
 		}
 	}
+	// Listings: a function that hands out model-owned slice memory (returns a slice field, a
+	// re-slice of it, an append to it, or the result of another such function) and, in the
+	// functions reachable from the read-only API, every append / in-place sort / element store
+	// THROUGH the result of such a function (the writes that the per-function walk above cannot
+	// attribute to a field because the slice arrives as a call result).
+	handout := map[*ssa.Function]string{}
+	var origin func(v ssa.Value, depth int) (string, bool)
+	origin = func(v ssa.Value, depth int) (string, bool) {
+		if depth > 12 {
+			return "", false
+		}
+		if _, ok := v.Type().Underlying().(*types.Slice); !ok {
+			return "", false
+		}
+		switch x := v.(type) {
+		case *ssa.Slice:
+			return origin(x.X, depth+1)
+		case *ssa.ChangeType:
+			return origin(x.X, depth+1)
+		case *ssa.Phi:
+			for _, e := range x.Edges {
+				if o, ok := origin(e, depth+1); ok {
+					return o, true
+				}
+			}
+		case *ssa.UnOp:
+			if x.Op == token.MUL {
+				return owner(x.X, 0)
+			}
+		case *ssa.Call:
+			c := x.Call
+			if bi, ok := c.Value.(*ssa.Builtin); ok && bi.Name() == "append" && len(c.Args) > 0 {
+				return origin(c.Args[0], depth+1)
+			}
+			if f := c.StaticCallee(); f != nil {
+				if f.Origin() != nil {
+					f = f.Origin()
+				}
+				if o, ok := handout[f]; ok {
+					return o, true
+				}
+			} else if c.IsInvoke() {
+				for f, o := range handout {
+					if f.Name() == c.Method.Name() {
+						return o, true
+					}
+				}
+			}
+		}
+		return "", false
+	}
+	var scoped []*ssa.Function
+	for fn := range cg.Nodes {
+		if fn != nil && inScope(fn) {
+			scoped = append(scoped, fn)
+		}
+	}
+	sort.Slice(scoped, func(i, j int) bool { return scoped[i].String() < scoped[j].String() })
+	for changed := true; changed; {
+		changed = false
+		for _, fn := range scoped {
+			key := fn
+			if fn.Origin() != nil {
+				key = fn.Origin()
+			}
+			if _, done := handout[key]; done {
+				continue
+			}
+			for _, b := range fn.Blocks {
+				for _, ins := range b.Instrs {
+					ret, ok := ins.(*ssa.Return)
+					if !ok {
+						continue
+					}
+					for _, rv := range ret.Results {
+						if o, ok := origin(rv, 0); ok {
+							handout[key] = o
+							changed = true
+						}
+					}
+				}
+			}
+		}
+	}
+	for _, fn := range scoped {
+		key := fn
+		if fn.Origin() != nil {
+			key = fn.Origin()
+		}
+		if o, ok := handout[key]; ok && reach[fn] {
+			add(fn, "hands-out-slice", o, token.NoPos)
+		}
+		if !reach[fn] {
+			continue
+		}
+		for _, b := range fn.Blocks {
+			for _, ins := range b.Instrs {
+				switch x := ins.(type) {
+				case *ssa.Store:
+					if ia, ok := x.Addr.(*ssa.IndexAddr); ok {
+						if c, isCall := baseOf(ia.X, 0).(*ssa.Call); isCall {
+							if o, ok := origin(c, 0); ok {
+								add(fn, "store-through-listing", o, x.Pos())
+							}
+						}
+					}
+				case *ssa.Call:
+					c := x.Call
+					if bi, ok := c.Value.(*ssa.Builtin); ok && bi.Name() == "append" && len(c.Args) > 0 {
+						if _, direct := owner(c.Args[0], 0); !direct {
+							if o, ok := origin(c.Args[0], 0); ok {
+								add(fn, "append-to-listing", o, x.Pos())
+							}
+						}
+					}
+					if f := c.StaticCallee(); f != nil && f.Pkg != nil {
+						pp := f.Pkg.Pkg.Path()
+						if (pp == "slices" || pp == "sort" || strings.HasSuffix(pp, "x/exp/slices")) && strings.HasPrefix(f.Name(), "Sort") && len(c.Args) > 0 {
+							if _, direct := owner(c.Args[0], 0); !direct {
+								if o, ok := origin(c.Args[0], 0); ok {
+									add(fn, "in-place-sort-of-listing", o, x.Pos())
+								}
+							}
+						}
+					}
+				}
+			}
+		}
+	}
 	sort.Slice(res, func(i, j int) bool { return res[i].lean() < res[j].lean() })
 	return res
 }
